@@ -42,16 +42,16 @@ default = pp.CaselessLiteral('default:').suppress() + _ - (
 prop = name + pp.Suppress(":") + string_literal
 
 column_setting = _ + (
-    pp.CaselessLiteral("not null").set_parse_action(
+    pp.CaselessKeyword("not null").set_parse_action(
         lambda s, loc, tok: True
     )('notnull')
-    | pp.CaselessLiteral("null").set_parse_action(
+    | pp.CaselessKeyword("null").set_parse_action(
         lambda s, loc, tok: False
     )('notnull')
-    | pp.CaselessLiteral("primary key")('pk')
+    | pp.CaselessKeyword("primary key")('pk')
     | pk('pk')
     | unique('unique')
-    | pp.CaselessLiteral("increment")('increment')
+    | pp.CaselessKeyword("increment")('increment')
     | note('note')
     | ref_inline('ref*')
     | default('default')
@@ -94,7 +94,7 @@ column_settings.set_parse_action(parse_column_settings)
 column_settings_with_properties.set_parse_action(parse_column_settings)
 
 
-constraint = pp.CaselessLiteral("unique") | pp.CaselessLiteral("pk")
+constraint = pp.CaselessKeyword("unique") | pp.CaselessKeyword("pk")
 
 # comments directly above the column, grouped so that all of them stay together when the
 # column is a named part of a table body
